@@ -18,6 +18,8 @@
 (*            loop  its subscribe loop (goroutine) has not returned yet    *)
 (*   reg  = partition.consumers of each server: node -> group -> index     *)
 (*          into subs of the registered member (0 = no entry)              *)
+(*   ldr  = the server that leads the partition now ("L" = the server that *)
+(*          led it at the start; the names are identities, not roles)      *)
 (*   obs  = result of the last call [a, err, id]                           *)
 (*                                                                         *)
 (* A subscribe request q = [n, ris, g, c, e, bad, stop]:                   *)
@@ -35,6 +37,14 @@
 (*        request: epoch comparison, start/stop offset resolution, close   *)
 (*        of the previous member, start of the loop, registration          *)
 (*   DoBurst  concurrent subscribes (real goroutines)                      *)
+(*   DoRace(s, q)  the clean-up of the ending subscription s and the       *)
+(*        subscribe q contend for consumersMu at the same time: the two    *)
+(*        critical sections take effect in either order                    *)
+(*   DoElect  the controller moves the leadership of the partition to the  *)
+(*        other in-sync replica (electNewPartitionLeader -> ChangeLeader   *)
+(*        -> partition.SetLeader on both servers).  The subscribe loops    *)
+(*        and the group table of the server that steps down are left as    *)
+(*        they are (stopLeading does not touch them).                      *)
 (*   DoCancelByClient(s)  subscription.Close() - what apiServer.Subscribe  *)
 (*        does when the client's context ends or the loop reported an      *)
 (*        error (idempotent)                                               *)
@@ -60,11 +70,12 @@ CONSTANTS Groups,      \* real consumer groups (strings); "" is the plain subscr
           OnlyOpenEnded    \* TRUE = only open-ended group subscriptions are registered
                        \* (defective variant); FALSE = today's code registers every one
 
-VARIABLES subs, reg, obs
-vars == <<subs, reg, obs>>
+VARIABLES subs, reg, obs, ldr
+vars == <<subs, reg, obs, ldr>>
 
 NoGroup == ""
 Nodes == {"L", "F"}
+Other(n) == IF n = "L" THEN "F" ELSE "L"
 Idx == 1..Len(subs)
 
 Active(ss, s) == ss[s].open /\ ss[s].loop
@@ -75,39 +86,48 @@ Init ==
   /\ subs = <<>>
   /\ reg = [n \in Nodes |-> [g \in Groups |-> 0]]
   /\ obs = [a |-> "Open", err |-> "", id |-> 0]
+  /\ ldr = "L"
 
 -----------------------------------------------------------------------------
 (* The actions as the code performs them *)
 
 \* apiServer.SubscribeInternal: which requests reach partition.Subscribe
+\* (the server that leads the partition serves everything; any other replica
+\* serves only ReadISRReplica requests and never group requests)
 Route(q) ==
-  IF q.n = "L" THEN "serve"
+  IF q.n = ldr THEN "serve"
   ELSE IF ~q.ris THEN "notleader"
   ELSE IF q.g # NoGroup /\ ~GroupOnFollower THEN "invalid"
   ELSE "serve"
 
+\* The critical sections as FUNCTIONS of (subs, reg): [subs, reg, obs] after the
+\* section ran on (ss, rg).  The actions below bind the next state to them; DoRace
+\* composes two of them.
+
 \* partition.Subscribe.  Order in the code: (consumersMu) epoch comparison,
 \* getStartOffset/getStopOffset validation, close of the previous member,
 \* reader + loop start, registration.
-DoSubscribe(q) ==
-  LET ex == IF q.g = NoGroup THEN 0 ELSE reg[q.n][q.g] IN
+SubscribeF(ss, rg, q) ==
+  LET ex == IF q.g = NoGroup THEN 0 ELSE rg[q.n][q.g] IN
   IF Route(q) # "serve" THEN
-    /\ obs' = [a |-> "Subscribe", err |-> Route(q), id |-> 0]
-    /\ UNCHANGED <<subs, reg>>
-  ELSE IF ex # 0 /\ subs[ex].e > q.e THEN
-    /\ obs' = [a |-> "Subscribe", err |-> "stale", id |-> 0]
-    /\ UNCHANGED <<subs, reg>>
+    [subs |-> ss, reg |-> rg, obs |-> [a |-> "Subscribe", err |-> Route(q), id |-> 0]]
+  ELSE IF ex # 0 /\ ss[ex].e > q.e THEN
+    [subs |-> ss, reg |-> rg, obs |-> [a |-> "Subscribe", err |-> "stale", id |-> 0]]
   ELSE IF q.bad THEN
-    /\ obs' = [a |-> "Subscribe", err |-> "invalid", id |-> 0]
-    /\ UNCHANGED <<subs, reg>>
+    [subs |-> ss, reg |-> rg, obs |-> [a |-> "Subscribe", err |-> "invalid", id |-> 0]]
   ELSE
-    LET closedPrev == IF ex = 0 THEN subs ELSE [subs EXCEPT ![ex].open = FALSE]
-        k == Len(subs) + 1 IN
-    /\ subs' = Append(closedPrev, [n |-> q.n, g |-> q.g, c |-> q.c, e |-> q.e,
-                                   open |-> TRUE, loop |-> TRUE])
-    /\ reg' = IF q.g = NoGroup \/ (OnlyOpenEnded /\ q.stop # "none") THEN reg
-              ELSE [reg EXCEPT ![q.n][q.g] = k]
-    /\ obs' = [a |-> "Subscribe", err |-> "", id |-> k]
+    LET closedPrev == IF ex = 0 THEN ss ELSE [ss EXCEPT ![ex].open = FALSE]
+        k == Len(ss) + 1 IN
+    [subs |-> Append(closedPrev, [n |-> q.n, g |-> q.g, c |-> q.c, e |-> q.e,
+                                  open |-> TRUE, loop |-> TRUE]),
+     reg |-> IF q.g = NoGroup \/ (OnlyOpenEnded /\ q.stop # "none") THEN rg
+             ELSE [rg EXCEPT ![q.n][q.g] = k],
+     obs |-> [a |-> "Subscribe", err |-> "", id |-> k]]
+
+DoSubscribe(q) ==
+  LET r == SubscribeF(subs, reg, q) IN
+  /\ subs' = r.subs /\ reg' = r.reg /\ obs' = r.obs
+  /\ UNCHANGED ldr
 
 \* n subscribe calls of the same group with the same epoch, distinct consumers
 \* cs[1..n], issued CONCURRENTLY on the leader (real goroutines released
@@ -115,48 +135,75 @@ DoSubscribe(q) ==
 \* order: the one that comes last (the k-th) stays, every other one is closed by
 \* its successor.
 DoBurst(g, cs, e) ==
-  LET ex == reg["L"][g]
+  LET ex == reg[ldr][g]
       n  == Len(cs) IN
-  IF ex # 0 /\ subs[ex].e > e THEN
-    /\ obs' = [a |-> "Burst", err |-> "stale", id |-> 0]
-    /\ UNCHANGED <<subs, reg>>
-  ELSE
-    \E k \in 1..n :
-      LET closedPrev == IF ex = 0 THEN subs ELSE [subs EXCEPT ![ex].open = FALSE]
-          new == [i \in 1..n |-> [n |-> "L", g |-> g, c |-> cs[i], e |-> e,
-                                  open |-> (i = k), loop |-> TRUE]] IN
-      /\ subs' = closedPrev \o new
-      /\ reg' = [reg EXCEPT !["L"][g] = Len(subs) + k]
-      /\ obs' = [a |-> "Burst", err |-> "", id |-> n]
+  /\ UNCHANGED ldr
+  /\ IF ex # 0 /\ subs[ex].e > e THEN
+       /\ obs' = [a |-> "Burst", err |-> "stale", id |-> 0]
+       /\ UNCHANGED <<subs, reg>>
+     ELSE
+       \E k \in 1..n :
+         LET closedPrev == IF ex = 0 THEN subs ELSE [subs EXCEPT ![ex].open = FALSE]
+             new == [i \in 1..n |-> [n |-> ldr, g |-> g, c |-> cs[i], e |-> e,
+                                     open |-> (i = k), loop |-> TRUE]] IN
+         /\ subs' = closedPrev \o new
+         /\ reg' = [reg EXCEPT ![ldr][g] = Len(subs) + k]
+         /\ obs' = [a |-> "Burst", err |-> "", id |-> n]
 
 \* subscription.Close()
 DoCancelByClient(s) ==
   /\ s \in Idx
   /\ subs' = [subs EXCEPT ![s].open = FALSE]
   /\ obs' = [a |-> "Cancel", err |-> "", id |-> s]
-  /\ UNCHANGED reg
+  /\ UNCHANGED <<reg, ldr>>
 
 \* the loop of subscription s returns; deferred removeGroupSubscriber on the
 \* server that served it: the group entry is removed only if it still refers to
 \* this very subscription (after fix 'remove the group entry only for the same
 \* subscription'; the original code compared consumer ids, see RemoveById)
-RemoveBySub(s) ==
-  LET g == subs[s].g
-      n == subs[s].n IN
-  IF g = NoGroup THEN reg
-  ELSE IF reg[n][g] = s THEN [reg EXCEPT ![n][g] = 0] ELSE reg
+RemoveBySub(ss, rg, s) ==
+  LET g == ss[s].g
+      n == ss[s].n IN
+  IF g = NoGroup THEN rg
+  ELSE IF rg[n][g] = s THEN [rg EXCEPT ![n][g] = 0] ELSE rg
 
-RemoveById(s) ==
-  LET g == subs[s].g
-      n == subs[s].n IN
-  IF g = NoGroup THEN reg
-  ELSE IF reg[n][g] # 0 /\ subs[reg[n][g]].c = subs[s].c THEN [reg EXCEPT ![n][g] = 0] ELSE reg
+RemoveById(ss, rg, s) ==
+  LET g == ss[s].g
+      n == ss[s].n IN
+  IF g = NoGroup THEN rg
+  ELSE IF rg[n][g] # 0 /\ ss[rg[n][g]].c = ss[s].c THEN [rg EXCEPT ![n][g] = 0] ELSE rg
+
+LoopExitF(ss, rg, s) ==
+  [subs |-> [ss EXCEPT ![s].loop = FALSE],
+   reg |-> IF CleanupById THEN RemoveById(ss, rg, s) ELSE RemoveBySub(ss, rg, s),
+   obs |-> [a |-> "LoopExit", err |-> "", id |-> s]]
 
 DoLoopExit(s) ==
   /\ s \in Idx /\ subs[s].loop
-  /\ subs' = [subs EXCEPT ![s].loop = FALSE]
-  /\ reg' = IF CleanupById THEN RemoveById(s) ELSE RemoveBySub(s)
-  /\ obs' = [a |-> "LoopExit", err |-> "", id |-> s]
+  /\ LET r == LoopExitF(subs, reg, s) IN subs' = r.subs /\ reg' = r.reg /\ obs' = r.obs
+  /\ UNCHANGED ldr
+
+\* The loop of subscription s ends (its deferred clean-up wants consumersMu)
+\* while the subscribe q wants consumersMu too: both critical sections run, in
+\* either order.  obs = the subscribe's result.
+DoRace(s, q) ==
+  /\ s \in Idx /\ subs[s].loop
+  /\ UNCHANGED ldr
+  /\ \E exitFirst \in BOOLEAN :
+       LET r1 == IF exitFirst THEN LoopExitF(subs, reg, s) ELSE SubscribeF(subs, reg, q)
+           r2 == IF exitFirst THEN SubscribeF(r1.subs, r1.reg, q) ELSE LoopExitF(r1.subs, r1.reg, s)
+           so == IF exitFirst THEN r2.obs ELSE r1.obs IN
+       /\ subs' = r2.subs /\ reg' = r2.reg
+       /\ obs' = [a |-> "Race", err |-> so.err, id |-> so.id]
+
+\* The controller elects the other in-sync replica (metadataAPI.
+\* electNewPartitionLeader, Raft operation CHANGE_LEADER, partition.SetLeader on
+\* every replica: stopLeading / becomeFollower on the old leader, stopFollowing /
+\* becomeLeader on the new one).  Neither touches subscribe loops or group tables.
+DoElect ==
+  /\ ldr' = Other(ldr)
+  /\ obs' = [a |-> "Elect", err |-> "", id |-> 0]
+  /\ UNCHANGED <<subs, reg>>
 
 -----------------------------------------------------------------------------
 (* What property C13 demands *)
@@ -215,6 +262,35 @@ P_Cancel(s) ==
 
 P_LoopExit(s) == P_Cancel(s)
 
+\* a loop exit racing with a subscribe: s is inactive afterwards; the subscribe
+\* is judged like a subscribe, except that the ending subscription s may or may
+\* not have counted as the current member (either order is legitimate)
+P_Race(s, q) ==
+  /\ s \in Idx => ~Active(subs', s)
+  /\ IF obs'.err # "" THEN
+       /\ Len(subs') = Len(subs)
+       /\ \A t \in Idx : t # s => (subs'[t] = subs[t])
+       /\ obs'.err = "stale" => (q.g # NoGroup /\ NewerAround(q.g, q.e))
+     ELSE
+       /\ q.g # NoGroup => ~\E t \in ActiveOf(subs, q.g) : t # s /\ subs[t].e > q.e
+       /\ Len(subs') = Len(subs) + 1
+       /\ LET k == Len(subs') IN
+          /\ subs'[k].g = q.g /\ subs'[k].c = q.c /\ subs'[k].e = q.e /\ Active(subs', k)
+          /\ q.g # NoGroup => ActiveOf(subs', q.g) = {k}
+          /\ \A t \in Idx : Active(subs', t) => Active(subs, t)
+          /\ \A t \in Idx : (t # s /\ (subs[t].g # q.g \/ q.g = NoGroup)) => (Active(subs', t) <=> Active(subs, t))
+
+\* a leader change by itself starts no subscription and re-activates none
+\* (whether the subscriptions of the server that steps down go on is left open)
+P_Elect ==
+  /\ Len(subs') = Len(subs)
+  /\ \A s \in Idx : Active(subs', s) => Active(subs, s)
+  /\ \A s \in Idx : subs'[s].g = subs[s].g /\ subs'[s].c = subs[s].c /\ subs'[s].e = subs[s].e
+
+\* Situation of the open finding C13-member-stranded-on-former-leader: an active
+\* group member is served by a server that does not lead the partition (any more)
+Stranded(ss, l) == \E s \in 1..Len(ss) : ss[s].g # NoGroup /\ Active(ss, s) /\ ss[s].n # l
+
 -----------------------------------------------------------------------------
 (* Mechanism invariants (implementation level: a failure on a recorded    *)
 (* trace is drift, not a violation)                                        *)
@@ -227,4 +303,5 @@ RegOK == \A n \in Nodes, g \in Groups : reg[n][g] # 0 =>
 TypeOK == /\ \A s \in Idx : subs[s].open \in BOOLEAN /\ subs[s].loop \in BOOLEAN
           /\ \A s \in Idx : subs[s].n \in Nodes
           /\ \A n \in Nodes, g \in Groups : reg[n][g] \in 0..Len(subs)
+          /\ ldr \in Nodes
 =============================================================================
